@@ -20,7 +20,28 @@ def replay(w):
     except Exception:  # noqa
         return True
     want_c = before[0] | {"SPDX-FileCopyrightText: 2020 Jane Doe"}
-    ok = (w.get("merge") or want_c <= after[0]) and (before[1] | {"GPL-3.0-or-later"}) <= after[1] and (before[2] | {"Alice Example"}) <= after[2]
+
+    def holders(notices):
+        from reuse.extract import _COPYRIGHT_PATTERNS
+
+        out = {}
+        for n in notices:
+            for p in _COPYRIGHT_PATTERNS:
+                m = p.search(n)
+                if m is not None:
+                    g = m.groupdict()
+                    y = g["year"]
+                    ys = [] if not y else ([y] if len(y) == 4 else [y[:4], y[-4:]])
+                    out.setdefault(g["statement"], []).extend(ys)
+                    break
+        return out
+
+    if w.get("merge"):
+        hb, ha = holders(want_c), holders(after[0])
+        ok_c = all(h in ha for h in hb) and all((not ys) or (ha[h] and min(ha[h]) <= min(ys) and max(ha[h]) >= max(ys)) for h, ys in hb.items())
+    else:
+        ok_c = want_c <= after[0]
+    ok = ok_c and (before[1] | {"GPL-3.0-or-later"}) <= after[1] and (before[2] | {"Alice Example"}) <= after[2]
     return not ok
 
 
@@ -30,7 +51,10 @@ def run(ctx):
         ctx.harness_error(f"PYRE disagrees with re: {bad[:3]}")
         return {"level": "model_checking"}
     carve = sorted(ctx.known)
-    conds = hc.conditions("_acc", ctx.tier, carve, replace_modes=(True, False), merge_modes=(False, True))
+    conds = hc.conditions("_acc", ctx.tier, carve, replace_modes=(True, False), merge_modes=(False,))
+    conds += hc.conditions("_acc", ctx.tier, carve, replace_modes=(True,) if ctx.tier == "quick" else (True, False), merge_modes=(True,))
+    for name, multi in (("PythonCommentStyle", False), ("CCommentStyle", True), ("HtmlCommentStyle", True)):
+        conds.append(xh.Cond(f"acc {name} multi={multi} --merge-copyrights onto a header that already states a spaced year range for the same holder", "HDR.py", "_acc", {"style": name, "multi": multi, "replace": True, "merge": True, "nlines": 2, "old_same_holder": True, "carve": carve}, timeout=400 if ctx.tier == "quick" else 2000, twin="_acc_reach"))
     ctx.functions_encoded = ["reuse.header.create_header (existing info extracted from the found header and unioned), find_and_replace_header, add_new_header", "reuse.ReuseInfo.union / copy", "reuse.copyright.merge_copyright_lines (with --merge-copyrights)", "reuse.header._create_new_header post-condition"]
     ctx.bounds = dict(hc.BOUNDS, step="ONE annotate step from any pre-state in the bound - incl. a header the tool wrote earlier (top, middle, after a shebang) - in replace and --no-replace mode, with and without --merge-copyrights; the post-state is again a tool-written header, so one step covers sequences of such steps")
     ctx.stubs = hc.STUBS
